@@ -236,6 +236,13 @@ impl<H: Hal, T: Transport> VirtIOConsole<H, T> {
         self.poll_retrieve()?;
         while self.cursor == self.pending_len {
             self.finish_receive()?;
+            #[cfg(virtio_drivers_verif)]
+            if self.cursor == self.pending_len {
+                crate::verif::emit(crate::verif::Event::Spin {
+                    site: "wait_for_receive",
+                    queue: QUEUE_RECEIVEQ_PORT_0,
+                });
+            }
         }
         Ok(())
     }
